@@ -257,6 +257,13 @@ pipeline!(c01_pipe_s1_cc_maxgroup1, S1, [C, C], "\u{3}\u{3}", false, 1, 1);
 //@ c01_pipe_s1_a {"desc":"partition of a single character","bounds":"N=1; dictionary S1","symbolic":"costs, ids, matrix","functions":["Worker::reset_sentence","Worker::tokenize"],"fs":2048,"unwind":6,"timeout":600}
 pipeline!(c01_pipe_s1_a, S1, [A], "\u{1}", false, 0, 1);
 
+/// user lexicon {a}, system lexicon {b}
+const S_U: Spec = Spec { sys: L_B, user: Some(L_A), cats: CATS_MIX, unk_mult: &[1, 1, 1], nr: 2, nl: 2 };
+//@ c01_pipe_user_after_space {"desc":"ignore_space with a user-lexicon word directly after a skipped space: \"<sp>a\"","bounds":"N=2; dictionary S_U: system {b}, user {a}","symbolic":"costs, ids, matrix","functions":["Tokenizer::add_lattice_edges","Tokenizer::build_lattice_inner","Lattice::insert_node"],"fs":2048,"unwind":6,"timeout":900}
+pipeline!(c01_pipe_user_after_space, S_U, [SP, A], "\u{4}\u{1}", true, 0, 1);
+//@ c01_pipe_user_b_sp_a {"tier":"thorough","desc":"ignore_space, user word after an inner gap: \"b<sp>a\"","bounds":"N=3; dictionary S_U","symbolic":"costs, ids, matrix","functions":["Tokenizer::add_lattice_edges","Tokenizer::build_lattice_inner"],"fs":2048,"unwind":7,"timeout":2400,"mem_gb":24}
+pipeline!(c01_pipe_user_b_sp_a, S_U, [B, SP, A], "\u{2}\u{4}\u{1}", true, 0, 2);
+
 //@ c01_pipe_s1_ccc_maxgroup1 {"tier":"thorough","core":false,"desc":"max_grouping_len=1 with a grouped run of 3: the run is omitted and single characters are produced","bounds":"N=3 \"ccc\"; dictionary S1","symbolic":"costs, ids, matrix","functions":["Tokenizer::max_grouping_len","UnkHandler::gen_unk_words"],"fs":2048,"unwind":7,"timeout":2400,"mem_gb":24}
 pipeline!(c01_pipe_s1_ccc_maxgroup1, S1, [C, C, C], "\u{3}\u{3}\u{3}", false, 1, 3);
 //@ c01_pipe_s1_a_sp_b_ignore {"desc":"ignore_space, inner gap: \"a<sp>b\"","bounds":"N=3; dictionary S1","symbolic":"costs, ids, matrix","functions":["Tokenizer::build_lattice_inner","Lattice::insert_node","Lattice::append_top_nodes"],"fs":2048,"unwind":7,"timeout":2400,"mem_gb":24}
